@@ -4,6 +4,9 @@ import (
 	"fmt"
 	"go/ast"
 	"go/token"
+	"os"
+	"path/filepath"
+	"sort"
 	"strings"
 )
 
@@ -112,6 +115,39 @@ func init() {
 		}
 		v2Inv := invArgs(fset2, nq.Body)
 
+		// ---- request literals built outside the package that owns the invariant key (it is unexported, so a
+		// literal elsewhere carries invariantCacheKey = 0 and zero invalidation time)
+		var foreignLits []string
+		for _, root := range []string{"pkg", "internal", "cmd"} {
+			_ = filepath.Walk(filepath.Join(repo, root), func(path string, info os.FileInfo, err error) error {
+				if err != nil || info.IsDir() || !strings.HasSuffix(path, ".go") || strings.HasSuffix(path, "_test.go") {
+					return nil
+				}
+				rel, _ := filepath.Rel(repo, path)
+				if strings.HasPrefix(rel, "internal/graph/") || strings.Contains(rel, "/mocks/") {
+					return nil
+				}
+				fs, ff, perr := parseFile(repo, rel)
+				if perr != nil {
+					return nil
+				}
+				for _, d := range ff.Decls {
+					fd, ok := d.(*ast.FuncDecl)
+					if !ok || fd.Body == nil {
+						continue
+					}
+					ast.Inspect(fd.Body, func(n ast.Node) bool {
+						if c, ok := n.(*ast.CompositeLit); ok && c.Type != nil && src(fs, c.Type) == "graph.ResolveCheckRequest" {
+							foreignLits = append(foreignLits, rel+":"+fd.Name.Name)
+						}
+						return true
+					})
+				}
+				return nil
+			})
+		}
+		sort.Strings(foreignLits)
+
 		pairList := func(ps [][2]string) string {
 			var xs []string
 			for _, p := range ps {
@@ -130,6 +166,8 @@ func init() {
 		sb.WriteString("/-- pairs of check.Request.cloneWithTupleKey (literal, then req.x = … assignments) -/\n")
 		sb.WriteString("def v2Clone : List (String × String) := " + pairList(v2Pairs) + "\n")
 		sb.WriteString("def v2InvariantArgs : String := " + leanStr(v2Inv) + "\n")
+		sb.WriteString("/-- functions outside internal/graph that build a graph.ResolveCheckRequest as a struct literal -/\n")
+		sb.WriteString("def foreignRequestLiterals : List String := " + leanStrList(foreignLits) + "\n")
 		sb.WriteString("\nend OpenFGAVerif.Gen.ReqClone\n")
 		return Result{Lean: sb.String(), Summary: map[string]interface{}{"v1Fields": fields, "v1Clone": len(v1Pairs), "v2Clone": len(v2Pairs), "v1InvariantArgs": v1Inv, "v2InvariantArgs": v2Inv}}, nil
 	})
